@@ -411,7 +411,7 @@ def parse_mir(text, want=None):
             j = i + 1
             while j < n and lines[j] != "}":
                 j += 1
-            m = re.match(r"const (.*?): (.*) = \{$", line)
+            m = re.match(r"const (.*?::promoted\[\d+\]): (.*) = \{$", line)
             if m and (wre is None or wre.search(m.group(1))):
                 f = Function(m.group(1), line)
                 f.ret = m.group(2)
